@@ -76,6 +76,10 @@ def run(ctx):
     r4(ctx, lib, cg)
     from .common import run_mandatory
     run_mandatory(ctx, 'C15')
+    if ctx.tier == 'thorough' and not getattr(ctx, 'sibling', None):
+        from .. import sweep
+        sweep.error_discipline(ctx, 'C15.R1', skip_files=FILES)
+        sweep.buffered(ctx, 'C15.R1', skip_files=('group.rs', 'report.rs', 'dedupe.rs', 'reflink.rs', 'lock.rs', 'main.rs'))
 
 
 def exception_for(bpath, cpath):
